@@ -158,6 +158,27 @@ func c20Scenario() (choice.Scenario, func() any) {
 		{"indef-bstr", eOpen, func() *mcbor.Node { return mcbor.B(base.payload).Ind() }},
 		{"tagged-bstr", eOpen, func() *mcbor.Node { return mcbor.Tg(24, mcbor.B(base.payload)) }},
 	}, genericWrong("bstr")...)
+	// null / undefined under ONE tag whose number has, at each position of its 1-, 2-, 4- or 8-byte argument in turn, a byte
+	// that reads like the head of a map (a0, bf) or of another tag (c1, db): a hand-written scan over tag heads that
+	// miscounts an argument lands on that byte
+	for _, w := range []int{1, 2, 4, 8} {
+		for pos := 0; pos < w; pos++ {
+			for _, b := range []byte{0xa0, 0xbf, 0xc1, 0xdb} {
+				for _, content := range []byte{0xf6, 0xf7} {
+					if w == 1 && b < 24 {
+						continue
+					}
+					buf := []byte{0xc0 | byte(23+map[int]int{1: 1, 2: 2, 4: 3, 8: 4}[w])}
+					arg := make([]byte, w)
+					arg[0] = 0x01 // (keeps multi-byte numbers from being zero-padded small ones where the marked byte is last)
+					arg[pos] = b
+					buf = append(append(buf, arg...), content)
+					label := fmt.Sprintf("tag-%d-byte-number-with-%02x-at-%d(%02x)", w, b, pos, content)
+					payloadCls = append(payloadCls, inPayload(label, eBad, func() []byte { return buf }))
+				}
+			}
+		}
+	}
 	sigCls := append([]ecls{
 		{"bstr64", eOK, func() *mcbor.Node { return mcbor.B(base.sig) }},
 		{"bstr1", eOK, func() *mcbor.Node { return mcbor.B([]byte{0}) }},
